@@ -8,9 +8,3 @@ run C07-d C07
 run C13-d C13
 run C15-d C15
 run C16-d C16
-run C02-c C02
-run C05-c C05
-run C06-c C06
-run C08-c C08
-run C09-c C09
-run C11-c C11
